@@ -323,7 +323,9 @@ class CallMixin(ExprMixin):
             result = pure_result
         else:
             result = V.fresh(c.returns, "ret_" + c.key.replace(".", "_")) if c.returns.kind != "none" else V.NONE
-        post_env["result"] = result
+        if "result" not in env:
+            post_env["result"] = result
+        post_env["retval"] = result
         # exceptional outcomes
         normal_extra = []
         for exc, spec in c.raises.items():
@@ -364,6 +366,11 @@ class CallMixin(ExprMixin):
         self.wf(post, result)
         for name in modified_params:
             self.wf(post, post_env[name])
+        if (c.fresh_result or recv == "new") and isinstance(result, Val) and result.ty.kind == "ref":
+            post.allocate(result.ty.name, result.t)
+            if post.written_alloc is not None:
+                from .state import root_record
+                post.written_alloc.add(root_record(result.ty.name))
         self.writeback(modified_params, post_env, argkey, arg_nodes, recv_node, post, node)
         if memo_key is not None:
             post.pure_memo[memo_key] = result
@@ -394,6 +401,12 @@ class CallMixin(ExprMixin):
                 raise UnsupportedError(f"modifies {m}: unknown field")
             st.heap.havoc_field(rec, parts[1], fty)
             self.note_heap_write(st, rec, parts[1])
+            # a callee that may write a whole field map may also have created objects of that class
+            from .state import root_record
+            if root_record(parts[0]) in st.alloc:      # allocation is tracked lazily: only for classes some spec mentions
+                st.havoc_alloc(parts[0])
+                if st.written_alloc is not None:
+                    st.written_alloc.add(root_record(parts[0]))
             return
         # param.f(.g)* : single cell
         if parts[0] not in env:
